@@ -6,6 +6,8 @@
 // usage: deque <rand|dfs|replay> <arg> [maxruns]     scenario on stdin:
 //   owner s<id>:<iso> g<iso> ...      thief <iso> <iso> ...   (one line per thief)
 // Per run prints: run <i> / e <tid> <var> <kind> <a> <b> <ok> (accesses to head, tail, task_pool word) /
+//   snap <head> <tail> <task ids in task_pool_ptr[head..tail), _ = nullptr>  (white box, after every owner operation; the
+//   cells of the array are plain memory, so their CONTENT is compared with the model's pool at the same trace position) /
 //   res <tid> <ids, -1 = nullptr> / mon <verdict> / sched <tids> / end
 #include "oneapi/tbb/global_control.h"
 #include "oneapi/tbb/task_arena.h"
@@ -52,13 +54,33 @@ static bool run_once(verif::Schedule& sch, int run_idx, bool print) {
     std::map<int, int> spawned;
     std::vector<std::vector<int>> res(1 + NT);
     std::string err;
+    std::vector<std::string> snaps;
+    std::map<const void*, int> id_of;     // task address -> id
     verif::clear_names();
     g_slot->free_task_pool();             // every run starts without an array (growth happens in every run)
+    // white-box snapshot of [head, tail) taken by the owner between two of its operations (it holds the baton: raw reads)
+    auto snap = [&](size_t opidx) {
+        std::intptr_t H = (std::intptr_t)g_slot->head.a.load(std::memory_order_relaxed), T = (std::intptr_t)g_slot->tail.a.load(std::memory_order_relaxed);
+        std::string sn = std::to_string((long)H) + " " + std::to_string((long)T);
+        std::map<const void*, int> seen;
+        if (g_slot->task_pool_ptr) for (std::intptr_t i = H; i < T; ++i) {
+            d1::task* c = i >= 0 ? g_slot->task_pool_ptr[i] : nullptr;
+            if (!c) { sn += " _"; continue; }
+            auto it = id_of.find(c);
+            if (it == id_of.end()) { sn += " ?"; if (err.empty()) err = "VIOLATION deque cell " + std::to_string((long)i) + " in [head,tail) holds a pointer that is not a spawned task (after owner op " + std::to_string(opidx) + ")"; continue; }
+            sn += " " + std::to_string(it->second);
+            if (seen[c]++ && err.empty()) err = "VIOLATION task " + std::to_string(it->second) + " is referenced by two deque cells in [head,tail) (after owner op " + std::to_string(opidx) + ")";
+            if (returned.count(it->second) && err.empty()) err = "VIOLATION deque cell in [head,tail) still refers to task " + std::to_string(it->second) + " which was already handed out (after owner op " + std::to_string(opidx) + ")";
+        }
+        snaps.push_back(sn);
+        verif::note("snap", snaps.size() - 1, 0);
+    };
     std::vector<std::function<void()>> bodies;
     bodies.push_back([&] {
+        size_t opidx = 0;
         for (auto& op : g_owner) {
             if (op.spawn) {
-                Tk* t = new Tk; t->id = op.id; tasks.push_back(t);
+                Tk* t = new Tk; t->id = op.id; tasks.push_back(t); id_of[t] = op.id;
                 r1::task_accessor::isolation(*t) = (r1::isolation_type)op.iso;
                 spawned[op.id]++;
                 g_slot->spawn(*t);
@@ -69,6 +91,7 @@ static bool run_once(verif::Schedule& sch, int run_idx, bool print) {
                 res[0].push_back(id);
                 if (t) returned[id]++;
             }
+            snap(opidx++);
         }
     });
     for (size_t k = 0; k < NT; ++k) bodies.push_back([&, k] {
@@ -105,6 +128,7 @@ static bool run_once(verif::Schedule& sch, int run_idx, bool print) {
         std::map<uint64_t, int> gens;
         const void* ah = (const void*)&g_slot->head; const void* at = (const void*)&g_slot->tail; const void* ap = (const void*)&g_slot->task_pool;
         for (auto& e : r.log) {
+            if (e.kind == verif::K_NOTE && e.tag && std::string(e.tag) == "snap") { printf("snap %s\n", snaps[(size_t)e.a].c_str()); continue; }
             if (e.kind > verif::K_FXOR) continue;
             if (e.addr == ah || e.addr == at) {
                 long long a = (long long)e.a, b = (long long)e.b;
